@@ -423,7 +423,7 @@ def check_pack(ctx, res: Result, prop_id: str):
             if imp[0] == "symbol" and imp[1] in ctx.prog.modules and imp[1].split(".")[-1].startswith("_") and ctx.prog.modules[imp[1]] not in mods:
                 mods.append(ctx.prog.modules[imp[1]])
     fis = [fi for fi in ctx.prog.functions.values() if fi.module in mods]
-    lints = (("G-STALE", check_stale_in_loop), ("G-REUSE", check_iterator_reuse), ("N-FANCYAUG", check_fancy_augassign), ("G-GROUPBY", check_groupby_sorted), ("E-SHARED", check_shared_literals), ("G-LIVEITER", check_mutation_while_iterating), ("E-DEFAULTARG", check_mutable_defaults), ("G-KEYPROJ", check_key_projection), ("K-OWNER", check_id_owner), ("G-COUNTERADD", check_counter_arith), ("G-ZEROBUCKET", check_zero_buckets), ("G-LENVALID", check_len_validated_cache), ("G-SHAPEGUESS", check_layout_guess), ("K-LABELTYPE", check_label_type_dispatch), ("G-ZIPALIGN", check_zip_alignment), ("G-TRUTHY0", check_truthy_index), ("G-PYTRAP", check_python_traps), ("G-LOSSYKEY", check_lossy_keys), ("G-TRISTATE", check_tristate_flag), ("N-TRACEMUL", check_trace_of_elementwise), ("G-REUSEDREC", check_reused_record), ("G-LOOPLEAK", check_loop_leak), ("G-ACCRESET", check_accumulator_reset), ("G-ARGSWAP", check_swapped_arguments), ("K-SORTPAIR", check_sorted_pair))
+    lints = (("G-STALE", check_stale_in_loop), ("G-REUSE", check_iterator_reuse), ("N-FANCYAUG", check_fancy_augassign), ("G-GROUPBY", check_groupby_sorted), ("E-SHARED", check_shared_literals), ("G-LIVEITER", check_mutation_while_iterating), ("E-DEFAULTARG", check_mutable_defaults), ("G-KEYPROJ", check_key_projection), ("K-OWNER", check_id_owner), ("G-COUNTERADD", check_counter_arith), ("G-ZEROBUCKET", check_zero_buckets), ("G-LENVALID", check_len_validated_cache), ("G-SHAPEGUESS", check_layout_guess), ("K-LABELTYPE", check_label_type_dispatch), ("G-ZIPALIGN", check_zip_alignment), ("G-TRUTHY0", check_truthy_index), ("G-PYTRAP", check_python_traps), ("G-LOSSYKEY", check_lossy_keys), ("G-TRISTATE", check_tristate_flag), ("N-TRACEMUL", check_trace_of_elementwise), ("G-REUSEDREC", check_reused_record), ("G-LOOPLEAK", check_loop_leak), ("G-ACCRESET", check_accumulator_reset), ("G-ARGSWAP", check_swapped_arguments), ("K-SORTPAIR", check_sorted_pair), ("K-ROLEMEM", check_role_membership), ("G-ORFLAG", check_or_merged_flag))
     seen_keys = {(o.rule, o.func, o.stmt) for o in res.obs}
     for rule, fn in lints:
         n_f = n_v = 0
@@ -1492,6 +1492,69 @@ def check_sorted_pair(ctx, res: Result, dotted, rule="K-SORTPAIR"):
                         break
     if n == 0:
         res.ok(rule, f, "no directed pair passed through sorted()", "scan", loc(fi, fi.node))
+
+
+def check_role_membership(ctx, res: Result, dotted, rule="K-ROLEMEM"):
+    """`edge[1] in handled` with `handled = {edge[0] for edge in source_edges}`: a node tuple of one ROLE of a directed hyperedge (its
+    target side) is looked up in a collection of node tuples of the OTHER role (source sides).  The two sides of a directed
+    hyperedge are different things even when they hold the same nodes; the test succeeds by accident of a reciprocal pair."""
+    from .kinds import Atom, Dct, Lst, Seq, St, strip_none
+
+    v = ctx.view(dotted)
+    fi = v.fi
+    f = fi.short
+    res.rules.setdefault(rule, "a source-side node tuple is never looked up in a collection of target-side node tuples (or the reverse): the sides of a directed hyperedge are not interchangeable")
+    n = 0
+
+    def role_of_seq(k):
+        k = strip_none(k)
+        if isinstance(k, Seq) and isinstance(strip_none(k.elem), Atom):
+            return strip_none(k.elem).role
+        return None
+
+    for c in walk_no_nested(fi.node):
+        if not (isinstance(c, ast.Compare) and len(c.ops) == 1 and isinstance(c.ops[0], (ast.In, ast.NotIn))):
+            continue
+        try:
+            kl = ctx.interp.kind_at(fi, c.left)
+            kr = strip_none(ctx.interp.kind_at(fi, c.comparators[0]))
+        except Exception:
+            continue
+        rl = role_of_seq(kl)
+        rr = None
+        if isinstance(kr, (St, Lst)):
+            rr = role_of_seq(kr.elem)
+        elif isinstance(kr, Dct):
+            rr = role_of_seq(kr.key)
+        if rl and rr and rl != rr:
+            n += 1
+            res.violation(rule, f, norm(c)[:90], f"{rl} in {rr}", f"`{norm(c.left)[:30]}` is the {rl} side of a directed hyperedge, `{norm(c.comparators[0])[:30]}` holds {rr} sides: the lookup compares the two roles with each other - it hits exactly when another hyperedge has that node set on its other side (a reciprocal pair), which says nothing about THIS hyperedge", loc(fi, c))
+    if n == 0:
+        res.ok(rule, f, "no cross-role membership test", "scan", loc(fi, fi.node))
+
+
+def check_or_merged_flag(ctx, res: Result, dotted, rule="G-ORFLAG"):
+    """`keep_isolated_nodes = keep_isolated_nodes or keep_nodes` where the parameter on the left defaults to True: the `or` can only
+    ever turn the flag ON, so an alias / second option passed as False is silently ignored while the first is at its default."""
+    v = ctx.view(dotted)
+    fi = v.fi
+    f = fi.short
+    res.rules.setdefault(rule, "a flag that defaults to True is not merged with another option through `flag = flag or other` (the other option could never switch it off)")
+    n = 0
+    args = fi.node.args
+    pos = args.posonlyargs + args.args
+    defaults = dict(zip([a.arg for a in pos][len(pos) - len(args.defaults):], args.defaults))
+    defaults.update({a.arg: d for a, d in zip(args.kwonlyargs, args.kw_defaults) if d is not None})
+    true_default = {k for k, d in defaults.items() if isinstance(d, ast.Constant) and d.value is True}
+    for a in walk_no_nested(fi.node):
+        if isinstance(a, ast.Assign) and len(a.targets) == 1 and isinstance(a.targets[0], ast.Name) and isinstance(a.value, ast.BoolOp) and isinstance(a.value.op, ast.Or):
+            first = a.value.values[0]
+            if isinstance(first, ast.Name) and first.id == a.targets[0].id and first.id in true_default and any(isinstance(x, ast.Name) and x.id in defaults and x.id != first.id for o_ in a.value.values[1:] for x in ast.walk(o_)):
+                # not re-assigned before (the default still stands on this path)
+                n += 1
+                res.violation(rule, f, norm(a)[:90], first.id, f"`{first.id}` defaults to True, so `{norm(a.value)[:50]}` is True whatever the other option says: passing the other option as False (the legacy spelling of `{first.id}=False`) has no effect", loc(fi, a))
+    if n == 0:
+        res.ok(rule, f, "no default-True flag merged with `or`", "scan", loc(fi, fi.node))
 
 def check_reused_record(ctx, res: Result, dotted, rule="G-REUSEDREC"):
     """One mutable record (a dict created once) is filled item after item with `.update(...)` / element stores and handed to a
